@@ -3,6 +3,7 @@ package eval
 import (
 	"errors"
 	"fmt"
+	"reflect"
 	"strconv"
 	"strings"
 	"time"
@@ -310,7 +311,23 @@ func (c comparison) execute(_ *Ctx, params []Value) (Value, error) {
 	}
 }
 
+// isComparable reports whether v can be an operand of == without panicking
+// (lists and sets cannot).
+func isComparable(v Value) bool {
+	switch v.(type) {
+	case nil, bool, int64, string:
+		return true
+	}
+	return reflect.TypeOf(v).Comparable()
+}
+
 func comparisonEquals(_ *Ctx, params []Value) (Value, error) {
+	for _, p := range params {
+		if !isComparable(p) {
+			return nil, ParamTypeError(modeNames[equals], "comparable value", p)
+		}
+	}
+
 	if len(params) == 2 {
 		return params[0] == params[1], nil
 	}
@@ -331,6 +348,12 @@ func comparisonEquals(_ *Ctx, params []Value) (Value, error) {
 func comparisonNotEquals(_ *Ctx, params []Value) (Value, error) {
 	if len(params) != 2 {
 		return nil, errCnt2(notEquals, params)
+	}
+
+	for _, p := range params {
+		if !isComparable(p) {
+			return nil, ParamTypeError(modeNames[notEquals], "comparable value", p)
+		}
 	}
 
 	return params[0] != params[1], nil
